@@ -7,14 +7,17 @@ Inductive expr :=
 | EAttr (e : expr) (a : string)
 | ECall (f : string) (args : list (string * expr))
 | EMeth (e : expr) (m : string) (args : list (string * expr))
-| EEq (a b : expr) | EIsNot (a b : expr)
+| EEq (a b : expr) | EIsNot (a b : expr) | EIfExp (c a b : expr)
 | EDict (items : list (expr * expr)).
 Inductive stmt :=
 | SAssign (x : string) (e : expr) | SSetItem (d k v : expr) | SSkip
-| SPrint (e : expr) (to_stderr : bool) | SExpr (e : expr) | SReturn (rc : nat)
+| SPrint (e : expr) (to_stderr : bool) | SPrintEnd (e : expr) (end_ : expr) | SExpr (e : expr) | SReturn (rc : nat)
 | SIf (c : expr) (t f : list stmt).
 
 Definition str_eq : string -> string -> bool := String.eqb.   (* Python == on str; kept folded in proofs *)
+(* Python str.endswith: some suffix of s equals suf *)
+Fixpoint str_endswith (s suf : string) : bool :=
+  if String.eqb s suf then true else match s with EmptyString => false | String _ r => str_endswith r suf end.
 Section Interp.
   Variable doc : Type.
   Variables (lib_parse : string -> doc)
@@ -50,6 +53,13 @@ Section Interp.
         | _ => EUnsupported end
     | EMeth e1 m args =>
         if is_args_attr e1 "file" && String.eqb m "read" && match args with [] => true | _ => false end then EV (VStr (stdin_text i))
+        else if String.eqb m "endswith" then
+          match args with
+          | [(_, a)] => match eval i r e1, eval i r a with
+                        | EV (VStr x), EV (VStr suf) => EV (VBool (str_endswith x suf))
+                        | ERaise, _ | _, ERaise => ERaise
+                        | _, _ => EUnsupported end
+          | _ => EUnsupported end
         else if String.eqb m "rebuild" && match args with [] => true | _ => false end then
           match eval i r e1 with EV (VDoc d) => EV (VStr (lib_rebuild d)) | ERaise => ERaise | _ => EUnsupported end
         else EUnsupported
@@ -84,6 +94,11 @@ Section Interp.
         | EV (VStr x), EV (VStr y) => EV (VBool (str_eq x y))
         | ERaise, _ | _, ERaise => ERaise
         | _, _ => EUnsupported end
+    | EIfExp c a b =>
+        match eval i r c with
+        | EV (VBool t) => if t then eval i r a else eval i r b
+        | ERaise => ERaise
+        | _ => EUnsupported end
     | _ => EUnsupported
     end.
 
@@ -106,6 +121,11 @@ Section Interp.
             | EV (VStr s) => if to_err then run f i r out true rest else run f i r (out ++ s ++ nl) err rest
             | ERaise => Done out true 1
             | _ => Unsupported end
+        | SPrintEnd e en =>      (* print(x, end=y): both arguments are evaluated before anything is written *)
+            match eval i r e, eval i r en with
+            | EV (VStr s), EV (VStr t) => run f i r (out ++ s ++ t) err rest
+            | ERaise, _ | _, ERaise => Done out true 1
+            | _, _ => Unsupported end
         | SReturn rc => Done out err rc
         | SIf c t e =>
             match eval i r c with
